@@ -88,7 +88,8 @@ func verifHarness_C18_racing_close() {
 
 func verifHarness_C18_two_conns_async_T() {
 	verifBound("conns", 2)
-	verifC18(1+verifChoose("mode", 2), true, 2, true, true, true, true, 2)
+	verifBound("preemptions_two_conns", 1)
+	verifC18(1+verifChoose("mode", 2), true, 2, true, true, true, true, 1)
 	verifAssert(false, "witness")
 }
 
